@@ -124,10 +124,10 @@ structure HttpReq where
   items : Nat
 deriving DecidableEq, Repr
 
-def authStatusHttp : Nat := 401      -- confighttp authInterceptor: http.StatusUnauthorized
-def encodingStatus : Nat := 400      -- confighttp decompressor (C16: `Compression.rejectStatus`)
-def pathStatus : Nat := 404          -- http.ServeMux
-def authCodeGrpc : Nat := 16         -- configgrpc authUnaryServerInterceptor: codes.Unauthenticated
+def authStatusHttp : Nat := OtlpTables.authStatusHttp   -- regenerated: confighttp authInterceptor (http.StatusUnauthorized)
+def encodingStatus : Nat := OtlpTables.encodingStatus   -- regenerated: confighttp decompressor.ServeHTTP (C16: `Compression.rejectStatus`)
+def pathStatus : Nat := 404          -- http.ServeMux (library; hand constant)
+def authCodeGrpc : Nat := OtlpTables.authCodeGrpc       -- regenerated: configgrpc auth interceptors (codes.Unauthenticated)
 def undecodableCodeGrpc : Nat := 13  -- grpc-go: "error unmarshalling request" → codes.Internal
 
 /-- receiver `errorHandler` (what confighttp calls for auth / decompressor rejections): answers in the
@@ -156,12 +156,23 @@ structure GrpcReq where
   authOk : Option Bool
   bodyDecodes : Bool
   items : Nat
+  methodKnown : Bool       -- the `/service/method` path is one the receiver registered
+  encodingKnown : Bool     -- `grpc-encoding` names a compressor the server has installed (or none)
+  fitsMaxRecv : Bool       -- the (decompressed) message is not larger than `max_recv_msg_size_mib` (default 4 MiB)
 deriving DecidableEq, Repr
+
+def unknownMethodCodeGrpc : Nat := 12    -- grpc-go `handleStream`: codes.Unimplemented ("unknown service / unknown method")
+def unknownEncodingCodeGrpc : Nat := 12  -- grpc-go `processUnaryRPC`: codes.Unimplemented ("Decompressor is not installed for grpc-encoding")
+def oversizeCodeGrpc : Nat := 8          -- grpc-go `recvAndDecompress`: codes.ResourceExhausted ("received message larger than max")
 
 /-- grpc-go decodes the request inside the generated method handler *before* it calls the interceptor chain,
 so an undecodable frame is answered before the authenticator is consulted -/
 def grpcFront (r : GrpcReq) (sink : Outcome) : WireGrpc × Nat :=
-  if !r.bodyDecodes then (⟨undecodableCodeGrpc, none⟩, 0)
+  -- grpc-go's own stages, in its order: method lookup, compressor lookup, size check, decode; then the interceptor chain
+  if !r.methodKnown then (⟨unknownMethodCodeGrpc, none⟩, 0)
+  else if !r.encodingKnown then (⟨unknownEncodingCodeGrpc, none⟩, 0)
+  else if !r.fitsMaxRecv then (⟨oversizeCodeGrpc, none⟩, 0)
+  else if !r.bodyDecodes then (⟨undecodableCodeGrpc, none⟩, 0)
   else if r.authOk = some false then (⟨authCodeGrpc, none⟩, 0)
   else
     let (o, calls) := receive r.items sink
